@@ -25,14 +25,18 @@ import (
 
 func filterOutHLSParams(rawQuery string) string {
 	if rawQuery != "" {
-		if q, err := url.ParseQuery(rawQuery); err == nil {
-			for k := range q {
-				if strings.HasPrefix(k, "_HLS_") {
-					delete(q, k)
-				}
-			}
-			rawQuery = q.Encode()
+		q, err := url.ParseQuery(rawQuery)
+		if err != nil {
+			// do not propagate a query that cannot be filtered
+			return ""
 		}
+
+		for k := range q {
+			if strings.HasPrefix(k, "_HLS_") {
+				delete(q, k)
+			}
+		}
+		rawQuery = q.Encode()
 	}
 	return rawQuery
 }
